@@ -6,7 +6,8 @@ CALL_FILES = ["kvstore/kvstore.go", "kvstore/mapdb/mapdb.go", "kvstore/mapdb/syn
               "kvstore/debug/debug.go", "kvstore/utils/utils.go"]
 
 
-WRAP_FILES = ["kvstore/flushkv/flushkv.go", "kvstore/debug/debug.go", "kvstore/kvstore.go", "kvstore/utils/utils.go"]
+WRAP_FILES = ["kvstore/flushkv/flushkv.go", "kvstore/debug/debug.go", "kvstore/kvstore.go", "kvstore/utils/utils.go",
+              "serializer/byteutils/byteutils.go"]
 
 
 def regen(ctx):
